@@ -326,14 +326,30 @@ grouped axis its members (object identity -> index in the heap of plain axes), c
 Class P (independent of the model): a cached field differs from what a fresh MultiAxis of the same members computes."""
 from dimarray.core.axes import MultiAxis
 
-# OPEN (reported): a MultiAxis keeps references to its members and caches tuple labels / joined name: relabelling or renaming
-# a member (`b.axes[0].axes[0][0] = 9` on a flattened array, or the operand of a direct `MultiAxis(x, y)`) after the
-# labels were read leaves the cache stale.  While open, histories do not relabel / rename a member of a live grouped axis
-# (GroupedCache.Safe); Lean: grouped_stale_after_member_relabel_counterexample, grouped_name_stale_after_member_rename_counterexample.
-SKIP_GROUPED_MEMBER_MUTATION = True
-# OPEN (reported): `g.take(...)` / `g[pos] = t` read the private `_values` : AttributeError until `g.values` was read once;
-# an accepted `g[pos] = t` rewrites the cached tuples only.  While open, `take` follows a read and `set_item` is not generated.
-SKIP_GROUPED_PRIVATE_VALUES = True
+# K09 (open known finding, known_findings.json): a MultiAxis keeps references to its members and caches tuple labels / joined
+# name: relabelling or renaming a member (`b.axes[0].axes[0][0] = 9` on a flattened array, or the operand of a direct
+# `MultiAxis(x, y)`) after the labels were read leaves the cache stale, and an accepted `g[pos] = t` rewrites the cached tuples
+# only.  The histories generate these steps (flag False); the disagreements they cause are matched by `known_grouped` - a
+# stale grouped cache in a history WITHOUT such a step is still a VIOLATION.  Lean: GroupedCache.Safe excludes exactly these
+# steps; grouped_stale_after_member_relabel_counterexample, grouped_name_stale_after_member_rename_counterexample,
+# grouped_setitem_incoherent_counterexample.
+SKIP_GROUPED_MEMBER_MUTATION = False
+# F73 (repaired in /repo, 3940402): `g.take(...)` / `g[pos] = t` read the private `_values`: AttributeError until `g.values`
+# had been read once.  While it was open `take` followed a read and `set_item` was not generated (flag True).
+SKIP_GROUPED_PRIVATE_VALUES = False
+
+
+def known_grouped(c, mm):
+    """K09: every class-P observable is a stale grouped cache (or unflatten disagreeing with it), and the history holds a step
+    the finding names: a member relabelled / renamed, or an item assignment on the grouped axis"""
+    if c.get("op") != "gcache":
+        return False
+    p = [d for d in mm.get("differs", []) if d.startswith("P.")]
+    if not p or any(not (d.startswith("P.stale_grouped_cache:") or d == "P.unflatten_differs_from_members") for d in p):
+        return False
+    if any(not d.startswith("P.") for d in mm.get("differs", [])):
+        return False            # the model disagrees as well: not the listed finding
+    return any(o[0] in ("relabel_member", "rename_member", "set_item") for o in c["ops"])
 
 
 def gen_grouped_hist(rng, tier):
